@@ -17,6 +17,10 @@ func init() {
 
 // pickGrammar selects a grammar of the family (concrete fork).
 func pickGrammar(filter func(g *Grammar) bool) *Grammar {
+	if k := rt.Param("systematic", 0); k > 0 {
+		// the generated part of the family: k grammars sampled from the seed
+		return Systematic(rt.Param("seed", 0), rt.Choose("grammar", k))
+	}
 	all := Curated()
 	var sel []*Grammar
 	for _, g := range all {
@@ -57,11 +61,43 @@ type env struct {
 	base int
 }
 
+// otherFile is a file of arbitrary (symbolic) length placed before the parsed one.
+type otherFile struct{ length, offset int }
+type otherPos struct{}
+
+func (otherPos) String() string                      { return "other:1:1" }
+func (f *otherFile) Position(int) parsley.Position  { return otherPos{} }
+func (f *otherFile) Pos(off int) parsley.Pos        { return parsley.Pos(f.offset + off) }
+func (f *otherFile) Len() int                       { return f.length }
+func (f *otherFile) SetOffset(o int)                { f.offset = o }
+
+// placement is decided once per harness run: 0 = the file alone (base offset
+// 1), 1 = after a file of symbolic length (symbolic base offset).
+var placement = -1
+var placementRun = -1
+var otherLen int
+
 func newEnv(in []byte) *env {
 	cp := make([]byte, len(in))
 	copy(cp, in)
 	f := text.NewFile("f", cp)
-	fs := parsley.NewFileSet(f)
+	if placement < 0 || placementRun != rt.RunID() {
+		placementRun = rt.RunID()
+		placement = 0
+		if rt.Param("placed", 0) == 1 {
+			placement = rt.Choose("placement", 2)
+			if placement == 1 {
+				otherLen = rt.IntRange("otherlen", 0, 1<<40)
+				rt.Cover("parsed file at a symbolic base offset")
+			}
+		}
+	}
+	var fs *parsley.FileSet
+	if placement == 1 {
+		fs = parsley.NewFileSet(&otherFile{length: otherLen}, f)
+	} else {
+		fs = parsley.NewFileSet(f)
+	}
 	rd := text.NewReader(f)
 	e := &env{file: f, fs: fs, rd: rd, ctx: parsley.NewContext(fs, rd)}
 	e.base = int(rd.Pos(0))
